@@ -33,6 +33,8 @@ FILE_PROPS = {
 def props_for(seed_id, patch):
     own = seed_id.split('-')[0]
     out = [own]
+    if os.environ.get('CGV_OWN_ONLY'):
+        return out
     for f in re.findall(r'^\+\+\+ b/(\S+)', open(patch).read(), re.M):
         for p in FILE_PROPS.get(f, []):
             if p not in out:
